@@ -193,16 +193,26 @@ Qed.
 Lemma case127_rows cap v pp T w h t type off s ts x y :
   1 <= w <= 16 -> 1 <= h <= 16 -> rows_wf w h T -> 2 <= zlen pp <= 16 ->
   Forall (Forall (fun p => In p pp /\ cp_ok v p)) T ->
-  tr_last t = zlen pp -> tr_pal t = map (cp_norm v) pp -> tr_bits t = bits_for (zlen pp) ->
+  (tr_last t = zlen pp /\ tr_bits t = bits_for (zlen pp) \/ tr_last t = 128 + zlen pp) -> tr_pal t = map (cp_norm v) pp ->
   st_wf s -> 0 <= x -> 0 <= y -> x + w <= c_w s -> y + h <= c_h s -> 0 <= off <= 64 -> 512 <= cap ->
   trle_case127 cap v x y w h t type off s (toks (pk_rows pp T) ++ ts)
-  = Ok (mktr (zlen pp) (tr_pal t) (tr_bits t) (tr_color t), zlen pp) (set_fb s (blit_spec (c_fb s) x y T)) ts.
+  = Ok (mktr (zlen pp) (tr_pal t) (bits_for (zlen pp)) (tr_color t), zlen pp) (set_fb s (blit_spec (c_fb s) x y T)) ts.
 Proof.
-  intros Hw Hh HT Hpal Hp Hl Hpl Hb Hs Hx Hy Hxw Hyh Hoff Hcap. pose proof HT as [T1 T2].
-  unfold trle_case127. cbv zeta. rewrite Hl. set (n := zlen pp) in *.
-  destruct (Z.eqb_spec n 0); [lia|]. destruct (Z.eqb_spec n 1); [lia|]. destruct (Z.eqb_spec n 128); [lia|].
-  destruct (Z.leb_spec 130 n); [lia|]. destruct (Z.leb_spec n 16); [|lia].
-  rewrite Hb. set (bits := bits_for n).
+  intros Hw Hh HT Hpal Hp Hl Hpl Hs Hx Hy Hxw Hyh Hoff Hcap. pose proof HT as [T1 T2].
+  unfold trle_case127. cbv zeta. set (n := zlen pp) in *.
+  assert (Elb : (if 130 <=? tr_last t then (tr_last t mod 128, bits_of_palsize (tr_last t mod 128)) else (tr_last t, tr_bits t))
+                = (n, bits_for n) /\ tr_last t <> 0 /\ tr_last t <> 1 /\ tr_last t <> 128).
+  { destruct Hl as [[Hl Hb]|Hl].
+    - rewrite Hl, Hb. destruct (Z.leb_spec 130 n); [lia|]. split; [reflexivity|lia].
+    - rewrite Hl. destruct (Z.leb_spec 130 (128 + n)); [|lia].
+      replace ((128 + n) mod 128) with n by (apply (Z.mod_unique _ 128 1); lia).
+      split; [|lia]. f_equal. unfold bits_of_palsize, bits_for.
+      destruct (Z.ltb_spec 4 n); destruct (Z.ltb_spec 16 n); destruct (Z.ltb_spec 2 n); destruct (Z.leb_spec n 2); destruct (Z.leb_spec n 4); lia. }
+  destruct Elb as (Elb & N0 & N1 & N128).
+  destruct (Z.eqb_spec (tr_last t) 0); [contradiction|]. destruct (Z.eqb_spec (tr_last t) 1); [contradiction|].
+  destruct (Z.eqb_spec (tr_last t) 128); [contradiction|].
+  rewrite Elb. destruct (Z.leb_spec n 16); [|lia].
+  set (bits := bits_for n).
   assert (Hbits : bits = 1 \/ bits = 2 \/ bits = 4) by apply bits_for_cases.
   destruct (per_bits bits Hbits) as [Hpb Hp1].
   set (rowbytes := (w + 8 / bits - 1) / (8 / bits)).
@@ -379,10 +389,10 @@ Qed.
 
 Lemma ttile_reuse127 v pp T w h t : 1 <= w <= 16 -> 1 <= h <= 16 -> rows_wf w h T -> 2 <= zlen pp <= 16 ->
   Forall (Forall (fun p => In p pp /\ cp_ok v p)) T ->
-  tr_last t = zlen pp -> tr_pal t = map (cp_norm v) pp -> tr_bits t = bits_for (zlen pp) ->
-  ttile_ok v ([127] ++ pk_rows pp T) T w h t (mktr (zlen pp) (tr_pal t) (tr_bits t) (tr_color t)).
+  (tr_last t = zlen pp /\ tr_bits t = bits_for (zlen pp) \/ tr_last t = 128 + zlen pp) -> tr_pal t = map (cp_norm v) pp ->
+  ttile_ok v ([127] ++ pk_rows pp T) T w h t (mktr (zlen pp) (tr_pal t) (bits_for (zlen pp)) (tr_color t)).
 Proof.
-  intros Hw Hh HT Hpal Hp Hl Hpl Hb.
+  intros Hw Hh HT Hpal Hp Hl Hpl.
   assert (Hp1 : Forall (Forall (fun p => In p pp)) T).
   { eapply Forall_impl; [|exact Hp]. intros r Hr. eapply Forall_impl; [|exact Hr]. intros p Hpp. apply Hpp. }
   split.
@@ -392,7 +402,7 @@ Proof.
   ttile_head.
   change (127 =? 0) with false. change (127 =? 1) with false. change (127 =? 127) with true. cbv iota.
   erewrite bind_ok.
-  2:{ apply (case127_rows cap v pp T w h t 127 0 s ts x y Hw Hh HT Hpal Hp Hl Hpl Hb); auto; try lia. }
+  2:{ apply (case127_rows cap v pp T w h t 127 0 s ts x y Hw Hh HT Hpal Hp Hl Hpl); auto; try lia. }
   cbn [fst snd tr_pal tr_bits tr_color]. reflexivity.
 Qed.
 
@@ -474,7 +484,7 @@ Qed.
 (* ---------------------------------------------------------------- every tile the reference encoder can emit *)
 Definition trel (v : cpv) (t : trst) (pk : Z) (pp : list Z) : Prop :=
   (pk = 1 -> 2 <= zlen pp <= 16 /\ tr_last t = zlen pp /\ tr_pal t = map (cp_norm v) pp /\ tr_bits t = bits_for (zlen pp)) /\
-  (pk = 2 -> 2 <= zlen pp <= 127 /\ tr_pal t = map (cp_norm v) pp).
+  (pk = 2 -> 2 <= zlen pp <= 127 /\ tr_last t = 128 + zlen pp /\ tr_pal t = map (cp_norm v) pp).
 
 Lemma trel_0 v t pp : trel v t 0 pp.
 Proof. split; intros; lia. Qed.
@@ -523,10 +533,16 @@ Proof.
     rewrite (fill_rows_eq w h c T HT Hall).
     apply ttile_solid; auto; try lia. apply Hokp. apply Hcols'. rewrite Hc1. now left. }
   destruct (pick ch base 6 =? 2).
-  { destruct ((pk =? 1) && reuse_ok && (pick ch (base + 2) 2 =? 0)) eqn:Ere.
-    { apply andb_prop in Ere. destruct Ere as [Ere _]. apply andb_prop in Ere. destruct Ere as [Epk Ero].
-      apply Z.eqb_eq in Epk. destruct (Hrel1 Epk) as (R1 & R2 & R3 & R4). cbn [fst snd].
-      exists (mktr (zlen pp) (tr_pal t) (tr_bits t) (tr_color t)). split.
+  { destruct (((pk =? 1) || (pk =? 2)) && (zlen pp <=? 16) && reuse_ok && (pick ch (base + 2) 2 =? 0)) eqn:Ere.
+    { apply andb_prop in Ere. destruct Ere as [Ere _]. apply andb_prop in Ere. destruct Ere as [Ere Ero].
+      apply andb_prop in Ere. destruct Ere as [Epk E16]. cbn [fst snd].
+      assert (Hst : 2 <= zlen pp <= 16 /\ (tr_last t = zlen pp /\ tr_bits t = bits_for (zlen pp) \/ tr_last t = 128 + zlen pp)
+                    /\ tr_pal t = map (cp_norm v) pp).
+      { destruct (Z.eqb_spec pk 1) as [Ek1|Nk1].
+        - destruct (Hrel1 Ek1) as (R1 & R2 & R3 & R4). split; [lia|]. split; [left; auto|exact R3].
+        - assert (Ek2 : pk = 2) by lia. destruct (Hrel2 Ek2) as (R1 & R2 & R3). split; [lia|]. split; [right; exact R2|exact R3]. }
+      destruct Hst as (R1 & R2 & R3).
+      exists (mktr (zlen pp) (tr_pal t) (bits_for (zlen pp)) (tr_color t)). split.
       - apply (ttile_reuse127 v pp T w h t Hw Hh HT R1); auto.
         apply Forall_forall. intros r Hr. apply Forall_forall. intros p Hpr.
         split; [apply (Hreuse Ero), (Hpixr r Hr p Hpr)|apply Hokp, (Hpixr r Hr p Hpr)].
@@ -541,10 +557,14 @@ Proof.
       split; [unfold pal; apply in_or_app; left; apply Hcols, (Hpixr r Hr p Hpr)|apply Hokp, (Hpixr r Hr p Hpr)].
     - split; [intros _; cbn [tr_last tr_pal tr_bits]; auto|intros; lia]. }
   destruct (pick ch base 6 =? 3); [exact Hplain|].
-  destruct ((pk =? 2) && reuse_ok && (pick ch (base + 2) 2 =? 0)) eqn:Ere.
-  { apply andb_prop in Ere. destruct Ere as [Ere _]. apply andb_prop in Ere. destruct Ere as [Epk Ero].
-    apply Z.eqb_eq in Epk. destruct (Hrel2 Epk) as (R1 & R3). cbn [fst snd].
-    exists t. split; [|split; [intros; lia|intros _; auto]].
+  destruct (((pk =? 1) || (pk =? 2)) && reuse_ok && (pick ch (base + 2) 2 =? 0)) eqn:Ere.
+  { apply andb_prop in Ere. destruct Ere as [Ere _]. apply andb_prop in Ere. destruct Ere as [Epk Ero]. cbn [fst snd].
+    assert (Hst : 2 <= zlen pp <= 127 /\ tr_pal t = map (cp_norm v) pp).
+    { destruct (Z.eqb_spec pk 1) as [E1'|N1].
+      - destruct (Hrel1 E1') as (R1 & R2 & R3 & R4). split; [lia|exact R3].
+      - assert (E2' : pk = 2) by lia. destruct (Hrel2 E2') as (R1 & R2 & R3). split; [lia|exact R3]. }
+    destruct Hst as (R1 & R3).
+    exists t. split; [|split; assumption].
     apply (ttile_reuse129 v pp (rle cap pix) T w h t Hw Hh HT R1 E1); [|exact R3].
     pose proof (rle_colours cap pix (fun c => In c pp /\ cp_ok v c)) as Hc.
     assert (Hc' : Forall (fun cn : Z * Z => In (fst cn) pp /\ cp_ok v (fst cn)) (rle cap pix)).
@@ -559,7 +579,7 @@ Proof.
     assert (Hc' : Forall (fun cn : Z * Z => In (fst cn) pal /\ cp_ok v (fst cn)) (rle cap pix)).
     { apply Hc. apply Forall_forall. intros p Hpp. split; [unfold pal; apply in_or_app; left; now apply Hcols|now apply Hokp]. }
     apply Forall_forall. intros cn Hcn. rewrite Forall_forall in Hc', E2. destruct (Hc' cn Hcn). split; [apply (E2 cn Hcn)|split; assumption].
-  - split; [intros; lia|intros _; cbn [tr_pal]; auto].
+  - split; [intros; lia|intros _; cbn [tr_last tr_pal]; auto].
 Qed.
 
 (* ---------------------------------------------------------------- tiles of a rectangle *)
